@@ -84,4 +84,5 @@ def main() -> None:
     net.finish("bounded", "2..4 statements, every cut vector with up to 3 cuts (sampled), empty frames and metadata inserted; grouped serialisation of 1..4 graphs/datasets (0..3 statements, occasionally 300) through one shared stream",
                "each case = a re-framed byte string or a group-size vector")
 if __name__ == "__main__":
-    main()
+    from common import run_main
+    run_main(main, "C07")
